@@ -132,7 +132,12 @@ void coro_destroy(Coro *c) {
 #if SIM_ASAN
   __asan_unpoison_memory_region(c->stack, c->stack_size);
 #endif
-  if (c->stack_size == 256 * 1024 && g_stack_pool.size() < 16) g_stack_pool.push_back(c->stack);
+#if defined(SIM_TSAN)
+  const bool pool = false;  // TSan resets its shadow on munmap/mmap; a reused stack would look like a race with the finished fiber
+#else
+  const bool pool = true;
+#endif
+  if (pool && c->stack_size == 256 * 1024 && g_stack_pool.size() < 16) g_stack_pool.push_back(c->stack);
   else munmap(c->stack - 4096, c->stack_size + 8192);
   delete c;
 }
@@ -243,14 +248,62 @@ NOSAN void coro_restore(Coro *c, const CoroSnapshot *s) {
   c->sp = s->sp;
 }
 
-void *coro_tsan_child_fiber_begin() {
 #if defined(SIM_TSAN)
-  return nullptr;
+extern "C" void __tsan_acquire(void *addr);
+extern "C" void __tsan_release(void *addr);
+#endif
+
+void *coro_tsan_child_fiber_begin(Coro *c) {
+#if defined(SIM_TSAN)
+  void *prev = c->tsan_fiber;
+  c->tsan_fiber = __tsan_create_fiber(0);
+  return prev;
 #else
+  (void) c;
   return nullptr;
 #endif
 }
-void coro_tsan_child_fiber_end(void *prev) { (void) prev; }
+void coro_tsan_child_fiber_end(Coro *c, void *prev) {
+#if defined(SIM_TSAN)
+  __tsan_destroy_fiber(c->tsan_fiber);
+  c->tsan_fiber = prev;
+#else
+  (void) c; (void) prev;
+#endif
+}
+void coro_tsan_pad() {
+#if defined(SIM_TSAN)
+  for (int i = 0; i < 64; i++) __tsan_func_entry(__builtin_return_address(0));
+#endif
+}
+#if defined(SIM_TSAN)
+extern "C" void AnnotateIgnoreReadsBegin(const char *f, int l);
+extern "C" void AnnotateIgnoreReadsEnd(const char *f, int l);
+extern "C" void AnnotateIgnoreWritesBegin(const char *f, int l);
+extern "C" void AnnotateIgnoreWritesEnd(const char *f, int l);
+#endif
+void coro_tsan_ignore(bool on) {
+#if defined(SIM_TSAN)
+  if (on) { AnnotateIgnoreReadsBegin(__FILE__, __LINE__); AnnotateIgnoreWritesBegin(__FILE__, __LINE__); }
+  else { AnnotateIgnoreWritesEnd(__FILE__, __LINE__); AnnotateIgnoreReadsEnd(__FILE__, __LINE__); }
+#else
+  (void) on;
+#endif
+}
+void coro_tsan_release(void *addr) {
+#if defined(SIM_TSAN)
+  __tsan_release(addr);
+#else
+  (void) addr;
+#endif
+}
+void coro_tsan_acquire(void *addr) {
+#if defined(SIM_TSAN)
+  __tsan_acquire(addr);
+#else
+  (void) addr;
+#endif
+}
 
 NOSAN static uint8_t raw_shadow_byte(const void *p) { return *(volatile uint8_t *) shadow_of(p); }
 
